@@ -123,6 +123,13 @@ def do_slices(unit, scratch, mutate=None):
             raise Undecided('cannot read %s: %s' % (path, e))
         try:
             body, l0, l1 = slicer.slice_function(text, s['sig'], s.get('which', 0))
+            if s.get('until'):
+                # region slice: the body is cut at the first line matching the marker (a comment in the real text)
+                # and closed; everything after the marker is NOT under contract (stated in the unit's assumptions)
+                m_ = re.search(s['until'], body)
+                if not m_:
+                    raise slicer.ExtractionError('region marker /%s/ not found in %s' % (s['until'], s['name']))
+                body = body[:m_.start()] + '\n  ' + s.get('until_close', 'return COLVARS_OK;') + '\n}'
             raw_sha = slicer.sha(body)
             if mutate and mutate[0] == s['name']:
                 if body.count(mutate[1]) < 1:
@@ -141,12 +148,15 @@ def do_slices(unit, scratch, mutate=None):
                 # R8: `= C ? A : B;` with class-type operands A, B (named in the spec) is written as a call to
                 # cvs_select(C, A, B) (stub: if (c) return a; return b;) -- the front end cannot take a
                 # conditional expression of class type
-                ids = '|'.join(re.escape(x) for x in s['R8'])
+                ids = '|'.join(re.escape(x) for x in s['R8']) if s['R8'] is not True else None
 
                 def _r8(m):
                     log5.append({'rule': 'R8', 'cond': m.group(1), 'a': m.group(2), 'b': m.group(3)})
                     return '= cvs_select(%s, %s, %s);' % (m.group(1), m.group(2), m.group(3))
-                body2 = re.sub(r'=\s*([^;?=]+?)\s*\?\s*(%s)\s*:\s*(%s)\s*;' % (ids, ids), _r8, body2)
+                if ids:
+                    body2 = re.sub(r'=\s*([^;?=]+?)\s*\?\s*(%s)\s*:\s*(%s)\s*;' % (ids, ids), _r8, body2)
+                else:
+                    body2 = re.sub(r'=\s*\(\s*([^;?=]+?)\s*\?\s*([^;:?]+?)\s*:\s*([^;?]+?)\s*\)\s*;', _r8, body2)
             for a, b in s.get('subst', []):
                 # declared, logged token substitutions (R3/R6-style); must fire
                 if a not in body2:
@@ -274,6 +284,11 @@ def instrument(unit, task, scratch, tag):
         if len(full) != 1:
             raise Undecided('unwindset: function symbol %s not unique/found: %s' % (base, full))
         us['%s.%s' % (full[0], lid)] = n
+    if task.get('unwind_body'):
+        # every loop of the sliced bodies (frame members named body) gets the stated small unwinding bound
+        out_l = tool(['goto-instrument', '--show-loops', a], scratch, 'show-loops')
+        for m in re.finditer(r'^Loop (\S*::body\([^,\s]*\)\.\d+):', out_l, re.M):
+            us.setdefault(m.group(1), task['unwind_body'])
     task['_unwindset'] = us
     cmd = ['goto-instrument', '--dfcc', h]
     if task.get('enforce'):
